@@ -49,3 +49,6 @@ pub use crate::transport::tcp::verif_negotiate_connection as tcp_negotiate_conne
 /// TCP stream, after the transport's own WebSocket upgrade for the role.
 #[cfg(feature = "websocket")]
 pub use crate::transport::websocket::verif_negotiate_connection as ws_negotiate_connection;
+
+/// [`tcp_negotiate_connection`] with the dialed address form (ip / dns / dns4 / dns6) chosen by the caller.
+pub use crate::transport::tcp::verif_negotiate_connection_at as tcp_negotiate_connection_at;
